@@ -32,6 +32,16 @@ class StopSentinel:  # pylint: disable=too-few-public-methods
     """
 
 
+class FailureSentinel(StopSentinel):  # pylint: disable=too-few-public-methods
+    """The mapped function raised. The `Collector` which saw the exception
+    stops (as if it consumed a `StopSentinel`) and the exception is re-raised
+    to the consumer of `LazyPool.imap_unordered`.
+    """
+
+    def __init__(self, exception: BaseException) -> None:
+        self.exception: BaseException = exception
+
+
 class LazyPool:
     """Lazy version of `concurrent.futures.ThreadPoolExecutor.map`. Allows to
     iterate content of shards without reading all of them into memory if they
@@ -145,6 +155,11 @@ class LazyPool:
         # Get and yield one and put another to be processed.
         while self._active_threads > 0:
             next_result: V | StopSentinel = self._results.get()
+            if isinstance(next_result, FailureSentinel):
+                # The mapped function failed: stop all threads and let the
+                # consumer know instead of waiting forever.
+                self.finish_and_reset()
+                raise next_result.exception
             if isinstance(next_result, StopSentinel):
                 self._active_threads -= 1
                 continue
@@ -215,5 +230,11 @@ class Collector(threading.Thread):
                 return
 
             # Can be blocking, but should be short.
-            self._results.put(self.func(element))
+            try:
+                result = self.func(element)
+            except BaseException as exception:  # pylint: disable=broad-except
+                # Forward the failure and stop this thread.
+                self._results.put(FailureSentinel(exception))
+                return
+            self._results.put(result)
             time.sleep(0.0)  # Give up GIL.
